@@ -382,11 +382,14 @@ pub async fn server_pipeline(
         let sinks = sinks.clone();
         async move {
             app.push(Ev::Handshake);
+            // the application may use the sink while its handshake service is still running
+            if matches!(hs, Hs5::Accept { .. }) {
+                sinks.borrow_mut().push(h.sink());
+            }
             // a slow handshake service (gate closed by the check)
             app.wait(G_HS, 0).await;
             match hs {
                 Hs5::Accept { keep_alive, max_send } => {
-                    sinks.borrow_mut().push(h.sink());
                     let mut ack = h.ack(());
                     if let Some(k) = keep_alive {
                         ack = ack.keep_alive(k);
